@@ -100,7 +100,9 @@ func checkC13(c *fw.Ctx) {
 	var errConds []string
 	for _, r := range fw.Returns(read) {
 		if cst, ok := r.Results[0].(*ssa.Const); ok && cst.Value == nil {
-			errConds = append(errConds, condsOf(r.Block()))
+			for _, ob := range fw.ExitOrigins(r, fw.ErrIndex(read)) {
+				errConds = append(errConds, condsOf(ob))
+			}
 		}
 	}
 	all := strings.Join(errConds, " ## ")
